@@ -21,6 +21,7 @@ pub fn run_stream(ctx: &mut Ctx, name: &str) {
 			concat_stream(ctx);
 		},
 		"big" => big_stream(ctx),
+		"bigmem" => bigmem_stream(ctx),
 		"allocf4" => alloc_known_findings(ctx),
 		"inf" => inf_probe(ctx),
 		"ledger" => crate::ledger::ledger_stream(ctx),
@@ -806,6 +807,87 @@ fn big_for<T: Cat + Clone, C: Cat + FromIterator<T>>(ctx: &mut Ctx, name: &str) 
 		ctx.emit("big-cut", name, &format!("dec {} {}", C::ty(4), hex_or_dash(cut)), &ans);
 		if ans != "err" && C::min_len() > 0 && n > 0 && core::mem::size_of::<T>() > 0 {
 			ctx.oracle_fail("C14", format!("{}: strict prefix of an encoding of {} elements decoded: {}", name, n, &ans[..ans.len().min(40)]));
+		}
+	}
+}
+
+/// Memory-limited decoding of collections spanning several 16 KiB chunks (C12; C08 for the
+/// dependence on the input kind).
+fn bigmem_for<T: Cat + Clone, C: Cat + FromIterator<T> + DecodeWithMemTracking>(ctx: &mut Ctx, name: &str) {
+	let mut g = G::new(ctx.seed ^ 0xB17, 8);
+	for n in big_lengths::<T>(ctx.tier_thorough) {
+		let v: C = (0..n)
+			.map(|_| {
+				g.budget = 2;
+				T::gen(&mut g)
+			})
+			.collect();
+		let bs = v.encode();
+		let (unl, _) = dec_answer::<C>(&bs);
+		let (_, u) = mem_run::<C>(&bs, usize::MAX);
+		let ty = C::ty(4);
+		for l in [usize::MAX, 0, 1, u / 2, u.saturating_sub(1), u, u.saturating_add(1), u.saturating_mul(2)] {
+			let (ans, _) = mem_run::<C>(&bs, l);
+			ctx.emit("bigmem", name, &format!("mem {} {} {}", l, ty, hex_or_dash(&bs)), &ans);
+			if l > u && !ans.starts_with(&unl) {
+				ctx.oracle_fail("C12", format!("{} ({} elements): L = {} > U = {} but limited decode gives {}", name, n, l, u, &ans[..ans.len().min(60)]));
+			}
+			if u > 0 && l <= u && !ans.starts_with("err") {
+				ctx.oracle_fail("C12", format!("{} ({} elements): L = {} <= U = {} but limited decode succeeded", name, n, l, u));
+			}
+			// the same wrapper over an input that cannot report its remaining length
+			let r = catch_unwind(AssertUnwindSafe(|| {
+				let mut inner = UnknownLenInput { data: &bs, pos: 0 };
+				let mut mi = MemTrackingInput::new(&mut inner, l);
+				let r = C::decode(&mut mi);
+				let used = mi.used_mem();
+				(r.is_ok(), used)
+			}));
+			match r {
+				Ok((ok, used)) => {
+					if ok != ans.starts_with("ok") {
+						ctx.oracle_fail("C08", format!("{} ({} elements) with memory limit {}: slice input gives {} but an unknown-length input gives {}", name, n, l, &ans[..ans.len().min(12)], if ok { "ok" } else { "err" }));
+					}
+					if ok && !ans.ends_with(&format!("used={}", used)) {
+						ctx.oracle_fail("C12", format!("{} ({} elements) with memory limit {}: tracked usage differs between slice input and unknown-length input ({} vs {})", name, n, l, &ans[ans.len().saturating_sub(16)..], used));
+					}
+				},
+				Err(_) => ctx.oracle_fail("C03", format!("{}: memory-limited decode over an unknown-length input panicked", name)),
+			}
+		}
+		// oracle (C12): U is at least the payload the value holds (count x element size)
+		let payload = n * core::mem::size_of::<T>();
+		if unl.starts_with("ok") && u < payload && 2 * u < payload {
+			ctx.oracle_fail("C12", format!("{} ({} elements of {} bytes): tracked usage U = {} is below the payload {}", name, n, core::mem::size_of::<T>(), u, payload));
+		}
+		ctx.count("bigmem:values", 1);
+	}
+}
+
+fn bigmem_stream(ctx: &mut Ctx) {
+	use crate::derived::{TwinU32, TwinU8};
+	use std::collections::{BTreeSet, BinaryHeap, LinkedList, VecDeque};
+	bigmem_for::<u8, Vec<u8>>(ctx, "Vec<u8>");
+	bigmem_for::<u16, Vec<u16>>(ctx, "Vec<u16>");
+	bigmem_for::<i32, Vec<i32>>(ctx, "Vec<i32>");
+	bigmem_for::<u64, Vec<u64>>(ctx, "Vec<u64>");
+	bigmem_for::<u128, Vec<u128>>(ctx, "Vec<u128>");
+	bigmem_for::<f64, Vec<f64>>(ctx, "Vec<f64>");
+	bigmem_for::<TwinU32, Vec<TwinU32>>(ctx, "Vec<TwinU32>");
+	bigmem_for::<TwinU8, Vec<TwinU8>>(ctx, "Vec<TwinU8>");
+	bigmem_for::<(u8, u16), Vec<(u8, u16)>>(ctx, "Vec<(u8,u16)>");
+	bigmem_for::<(), Vec<()>>(ctx, "Vec<()>");
+	bigmem_for::<u64, VecDeque<u64>>(ctx, "VecDeque<u64>");
+	bigmem_for::<u32, BinaryHeap<u32>>(ctx, "BinaryHeap<u32>");
+	bigmem_for::<u16, LinkedList<u16>>(ctx, "LinkedList<u16>");
+	bigmem_for::<u32, BTreeSet<u32>>(ctx, "BTreeSet<u32>");
+	for n in [16383usize, 16385, 40000] {
+		let s: String = (0..n).map(|i| if i % 7 == 0 { 'é' } else { 'a' }).collect();
+		let bs = s.encode();
+		let (_, u) = mem_run::<String>(&bs, usize::MAX);
+		for l in [usize::MAX, u, u + 1] {
+			let (ans, _) = mem_run::<String>(&bs, l);
+			ctx.emit("bigmem", "String", &format!("mem {} str {}", l, hex_or_dash(&bs)), &ans);
 		}
 	}
 }
